@@ -390,6 +390,8 @@ class Executor:
             st = State()
             self.param_values = self.contract.params(self)
             argnames = [a.arg for a in fn.args.posonlyargs + fn.args.args + fn.args.kwonlyargs]
+            if fn.args.vararg is not None:
+                argnames.append(fn.args.vararg.arg)
             for a in argnames:
                 if a not in self.param_values:
                     raise ContractError(f"contract of {self.contract.qualname} gives no value for parameter {a!r}")
@@ -595,7 +597,14 @@ class Executor:
                 base = b
             for s2, idx in self.eval(target.slice, st):
                 pass
-            newv = self.prims.setitem(self, st, base, idx, value, target)
+            if isinstance(base, z3.ArithRef) and isinstance(idx, z3.BoolRef):
+                # pointwise view of a masked array store  result[mask] = v
+                v = value if is_sym(value) else to_z3(value)
+                if base.sort() == z3.RealSort() and v.sort() != z3.RealSort():
+                    v = z3.ToReal(v)
+                newv = z3.If(idx, v, base)
+            else:
+                newv = self.prims.setitem(self, st, base, idx, value, target)
             if isinstance(target.value, ast.Name):
                 st.vars[target.value.id] = newv
             else:
